@@ -75,15 +75,15 @@ func buildExprs(exprs []Expression, builder Builder, joinCond string) {
 			switch v := expr.(type) {
 			case OrConditions:
 				if len(v.Exprs) == 1 {
-					if e, ok := v.Exprs[0].(Expr); ok {
-						sql := strings.ToUpper(e.SQL)
+					if rawSQL, ok := rawSQLOf(v.Exprs[0]); ok {
+						sql := strings.ToUpper(rawSQL)
 						wrapInParentheses = containsAndOr(sql)
 					}
 				}
 			case AndConditions:
 				if len(v.Exprs) == 1 {
-					if e, ok := v.Exprs[0].(Expr); ok {
-						sql := strings.ToUpper(e.SQL)
+					if rawSQL, ok := rawSQLOf(v.Exprs[0]); ok {
+						sql := strings.ToUpper(rawSQL)
 						wrapInParentheses = containsAndOr(sql)
 					}
 				}
@@ -180,13 +180,22 @@ func Not(exprs ...Expression) Expression {
 	return NotConditions{Exprs: exprs}
 }
 
-// rawSQLOf returns the SQL of a raw (positional or named) expression
+// rawSQLOf returns the SQL of a raw (positional or named) expression, also when it is
+// the only member of an And/Or condition
 func rawSQLOf(c Expression) (string, bool) {
 	switch v := c.(type) {
 	case Expr:
 		return v.SQL, true
 	case NamedExpr:
 		return v.SQL, true
+	case OrConditions:
+		if len(v.Exprs) == 1 {
+			return rawSQLOf(v.Exprs[0])
+		}
+	case AndConditions:
+		if len(v.Exprs) == 1 {
+			return rawSQLOf(v.Exprs[0])
+		}
 	}
 	return "", false
 }
